@@ -7,6 +7,25 @@ pub mod spec;
 pub fn stub_format(_a: core::fmt::Arguments<'_>) -> String { String::new() }
 //@CYCLES
 
+// cheap stand-ins + recorders used by harnesses in other modules (C07): the objects are built over a one-name table so
+// that no 10/12/60-entry name table is constructed; the recorded argument is what the harness asserts on
+pub static mut REC_STEM: isize = isize::MIN;
+pub static mut REC_BRANCH: isize = isize::MIN;
+fn one_name() -> Vec<String> { let mut v: Vec<String> = Vec::new(); v.push(String::new()); v }
+pub fn rec_stem_from_index(i: isize) -> HeavenStem { unsafe { REC_STEM = i; } HeavenStem { parent: LoopTyme::from_index(one_name(), 0) } }
+pub fn rec_branch_from_index(i: isize) -> EarthBranch { unsafe { REC_BRANCH = i; } EarthBranch { parent: LoopTyme::from_index(one_name(), 0) } }
+pub fn const_cycle_from_name(_n: &str) -> SixtyCycle { SixtyCycle { parent: LoopTyme::from_index(one_name(), 0) } }
+
+// index-faithful cheap constructors: the same LoopTyme arithmetic (index_of, next_index, size) over a table of EMPTY names.
+// Sound for functions that only do index arithmetic on these values (names are read only by format!, which is stubbed,
+// and by the name lookup from_name, which is stubbed by a constant and decomposed as described in DESIGN 2.3);
+// NOT used for functions that compare values with == (name-based equality).
+fn empties(n: usize) -> Vec<String> { let mut v: Vec<String> = Vec::with_capacity(n); let mut i = 0; while i < n { v.push(String::new()); i += 1; } v }
+pub fn cheap_cycle(i: isize) -> SixtyCycle { SixtyCycle { parent: LoopTyme::from_index(empties(60), i) } }
+pub fn faithful_cycle_from_index(i: isize) -> SixtyCycle { cheap_cycle(i) }
+pub fn faithful_stem_from_index(i: isize) -> HeavenStem { unsafe { REC_STEM = i; } HeavenStem { parent: LoopTyme::from_index(empties(10), i) } }
+pub fn faithful_branch_from_index(i: isize) -> EarthBranch { unsafe { REC_BRANCH = i; } EarthBranch { parent: LoopTyme::from_index(empties(12), i) } }
+
 fn yy(h: &HeavenStem) -> i64 { if h.get_yin_yang() == YinYang::YANG { 0 } else { 1 } }
 
 // ---- C19: stem / branch attributes against the first-principles rules; one getter per harness (each getter
@@ -82,4 +101,53 @@ fn c19_k_stem_combine() {
   let h = HeavenStem::from_index(s);
   assert!(h.get_combine().get_index() as i64 == spec::stem_combine_partner(s as i64), "five-combination partner");
   kani::cover!(s == 9, "stem_combine reachable");
+}
+
+
+// ---- C08: first month of a sexagenary year (Five Tigers): the stem index fed to the "X寅" name lookup ------------
+#[kani::proof]
+#[kani::unwind(61)]
+#[kani::stub(alloc::fmt::format, stub_format)]
+#[kani::stub(SixtyCycle::from_index, faithful_cycle_from_index)]
+#[kani::stub(HeavenStem::from_index, faithful_stem_from_index)]
+#[kani::stub(SixtyCycle::from_name, const_cycle_from_name)]
+fn c08_k_first_month_args() {
+  let y: isize = kani::any();
+  kani::assume(y >= -1 && y <= 9999);
+  let _ = SixtyCycleYear { year: y }.get_first_month();
+  let ys = spec::emod(y as i64 - 4, 60) % 10;
+  assert!(spec::emod(unsafe { REC_STEM } as i64, 10) == spec::five_tigers(ys), "the Yin month of the year takes its stem by the Five-Tigers rule");
+  kani::cover!(y == 2024, "first_month reachable");
+}
+
+// ---- C17: day officer and twelve spirits of a sexagenary day: index arithmetic on (day branch, month branch) -------
+fn any_sixty_cycle_day() -> (SixtyCycleDay, i64, i64) {
+  let dp: isize = kani::any(); let mp: isize = kani::any(); let y: isize = kani::any();
+  kani::assume(dp >= 0 && dp < 60 && mp >= 0 && mp < 60 && y >= 1 && y <= 9999);
+  let sd = SolarDay::from_ymd(2000, 1, 1);
+  (SixtyCycleDay { solar_day: sd, month: SixtyCycleMonth { year: SixtyCycleYear { year: y }, month: cheap_cycle(mp) }, day: cheap_cycle(dp) }, dp as i64, mp as i64)
+}
+#[kani::proof]
+#[kani::unwind(61)]
+#[kani::stub(alloc::fmt::format, stub_format)]
+#[kani::stub(EarthBranch::from_index, faithful_branch_from_index)]
+fn c17_k_duty() {
+  let (d, dp, mp) = any_sixty_cycle_day();
+  let (db, mb) = (dp % 12, mp % 12);
+  let r = d.get_duty().get_index() as i64;
+  assert!(r == spec::emod(db - mb, 12), "day officer == (day branch - month branch) mod 12");
+  assert!((r == 0) == (db == mb), "Jian exactly when the day branch equals the month branch");
+  kani::cover!(db == 0 && mb == 11, "duty reachable");
+}
+#[kani::proof]
+#[kani::unwind(61)]
+#[kani::stub(alloc::fmt::format, stub_format)]
+#[kani::stub(EarthBranch::from_index, faithful_branch_from_index)]
+fn c17_k_twelve_star() {
+  let (d, dp, mp) = any_sixty_cycle_day();
+  let (db, mb) = (dp % 12, mp % 12);
+  // Azure Dragon starts at 子 in 寅申 months, 寅 in 卯酉, 辰 in 辰戌, 午 in 巳亥, 申 in 子午, 戌 in 丑未 months
+  let start = match mb { 2 | 8 => 0, 3 | 9 => 2, 4 | 10 => 4, 5 | 11 => 6, 0 | 6 => 8, _ => 10 };
+  assert!(d.get_twelve_star().get_index() as i64 == spec::emod(db - start, 12), "twelve spirits start at the branch fixed by the month branch and advance with the day branch");
+  kani::cover!(db == 0 && mb == 11, "twelve_star reachable");
 }
